@@ -365,6 +365,27 @@ def oracle(case):
 				up.parse(b'HTTP/%d.%d 200 OK' % (c, d))
 				if bytes(sp) != before:
 					return {'what': 'a message was given the server\'s version and then read HTTP/%d.%d: the server now speaks %r (before %r)' % (c, d, bytes(sp), before), 'finding': None}
+			# the same hand-over through the constructor
+			req2 = Request()
+			req2.parse(b'GET / ' + text)
+			resp2 = Response(protocol=req2.protocol)
+			resp2.parse(b'HTTP/%d.%d 404 Not Found' % (c, d))
+			if bytes(req2.protocol) != text or bytes(req2) != b'GET / ' + text + b'\r\n':
+				return {'what': 'Response(protocol=request.protocol), then the response read HTTP/%d.%d: the request (%r) now composes %r' % (c, d, text, bytes(req2)), 'finding': None}
+			# the status classes of httoop.status are statuses like any other: what an instance parsed is what it composes
+			import httoop.status as _st
+			for clsname in ('OK', 'BAD_REQUEST', 'NOT_FOUND', 'MOVED_PERMANENTLY'):
+				cls_ = getattr(_st, clsname, None)
+				if cls_ is None:
+					continue
+				for line_ in (b'%d Custom Phrase' % (100 + (a * 12 + b) * 11 % 500), b'400 Malformed Start Line', b'200 Fine'):
+					try:
+						inst = cls_()
+						inst.parse(line_)
+					except Exception:
+						continue      # (an instance that refuses to parse another status is fine)
+					if bytes(inst) != line_ or int(inst) != int(line_.split()[0]):
+						return {'what': '%s().parse(%r) composes %r (code %d)' % (clsname, line_, bytes(inst), int(inst)), 'finding': None}
 			# ... and a status handed from one response to another: code AND reason phrase (also onto a response that has the same code)
 			for code, phrase in ((200, b'Fine'), (404, b'Nope'), (100 + (a * 12 + b) * 7 % 500, b'Custom Phrase')):
 				upstream = Response()
